@@ -45,7 +45,7 @@ func init() {
 			"distinct_nontrivial = distinct (definition, argv) cases inside the specified territory",
 		defs:     defsC02,
 		alpha:    []string{"a", "5", "1.5", "k=v", "k=a=b", "=v", "1..3", "3..1", "", "-", "--", "--x", "-5", "c", "--m", "--m=a", "--m=5", "--m=k=v", "--m=k=w=z", "--m=1..3", "-m", "--zz"},
-		alphaExt: []string{"010", "08", "007..010", "--m=010", "0x1F", "1e2", "+5", "1_0", "-mx", "-xm", "--m=-2..1", "+1..+3", "-ñ", "-ñ=a", "-xñ"}, // numerals on which Go's decimal conversion and other readings (octal, hex, float) disagree; bundles in which the multi-value letter is not the last one; signed range ends
+		alphaExt: []string{"010", "08", "007..010", "--m=010", "0x1F", "1e2", "+5", "1_0", "-mx", "-xm", "--m=-2..1", "+1..+3", "-ñ", "-ñ=a", "-xñ", "--m=a,b", "a,b", "--m=k=a,b", "--m=1,2"}, // numerals on which Go's decimal conversion and other readings (octal, hex, float) disagree; bundles in which the multi-value letter is not the last one; signed range ends
 		depthQ:   4, depthT: 4,
 		facets: ph.Facets{Err: true, ErrDetail: true, Remaining: true, Vals: true, Called: true, CalledAs: true},
 		extra: func(pc *parserCase, info specInfo) ([]string, []string) {
@@ -132,7 +132,7 @@ func init() {
 			return ds
 		},
 		alpha:    []string{"--a", "--s", "v", "--so", "--l", "c", "p", "-", "--zz", "--", "-az", "--d"},
-		alphaExt: []string{"dep", "deploy", "--force", "-=x", "--=x", "e", "--late", ""}, // the unique beginning of a command name is not the command; dashes followed by `=` name no option; a sub-command below the command that sets require-order; the empty string
+		alphaExt: []string{"dep", "deploy", "--force", "-=x", "--=x", "e", "--late", "", "w"}, // the unique beginning of a command name is not the command; dashes followed by `=` name no option; a sub-command below the command that sets require-order; the empty string
 		depthQ:   5, depthT: 6,
 		facets: ph.AllFacets,
 		extra: func(pc *parserCase, info specInfo) ([]string, []string) {
@@ -188,6 +188,7 @@ func defC09() *ph.Def {
 			{Name: "so", Kind: ph.StrOpt, DefS: "D"},
 			{Name: "l", Kind: ph.StrS, Min: 1, Max: 2},
 		},
-		Cmds: []*ph.CmdDef{{Name: "c", Opts: []ph.OptDef{{Name: "d", Kind: ph.Bool}}, Cmds: []*ph.CmdDef{{Name: "e", Opts: []ph.OptDef{{Name: "late", Kind: ph.Bool}}}}}, {Name: "deploy", Opts: []ph.OptDef{{Name: "force", Kind: ph.Bool}}}},
+		Cmds: []*ph.CmdDef{{Name: "c", Opts: []ph.OptDef{{Name: "d", Kind: ph.Bool}}, Cmds: []*ph.CmdDef{{Name: "e", Opts: []ph.OptDef{{Name: "late", Kind: ph.Bool}}}}}, {Name: "deploy", Opts: []ph.OptDef{{Name: "force", Kind: ph.Bool}}},
+			{Name: "w", Unset: true, Unknown: 3}}, // a wrapper inherits the require-order of the program
 	}}
 }
